@@ -4,7 +4,7 @@
    afterwards (in fresh pages, or in the page that already contained them - case 6).
    addContiguous leaves in the queue every held byte beyond the end of the run it takes, and takes
    everything up to the first byte that is not held.  A flush skips no held byte. *)
-From GP Require Import Base C09Model C09Spec C09Seq C09Proofs C09Stream C09Flush C09Keep C09Send C09Full.
+From GP Require Import Base C09Model C09Spec C09Seq C09Proofs C09Stream C09Flush C09Keep C09Send.
 From Coq Require Import Lia ZifyBool ZifyNat.
 Ltac Zify.zify_post_hook ::= Z.div_mod_to_equations.
 Open Scope Z_scope.
@@ -245,4 +245,394 @@ Proof.
       assert (Hge : o <= e).
       { eapply (qok_cov_ge S i (p :: t) o hi e HS); [|exact Hall]. cbn [qok]. exists o. split; [lia|]. auto. }
       lia.
+Qed.
+
+(* ---------------------------------------------------------------- sendToConnection and the queue *)
+Lemma send_queue : forall v c h used r0 sid nc,
+  h_queue (sr_half (send v c h used r0 sid nc)) =
+  snd (fst (add_contiguous v (h_queue h) (sadd (cseq r0) (clen r0)))).
+Proof.
+  intros. unfold send.
+  destruct (add_pending (h_saved h) (cseq r0)) as [[[pre sl] sv1] reld].
+  destruct (add_contiguous v (h_queue h) (sadd (cseq r0) (clen r0))) as [[tk q1] nx].
+  match goal with |- context [if ?b then (length ?l, 0) else ?f] => destruct (if b then (length l, 0) else f) as [ndx kskip] end.
+  destruct (keep_conv v (skipn ndx (map CPage pre ++ r0 :: map CPage tk)) kskip) as [[sv2 alloc] pk].
+  reflexivity.
+Qed.
+
+Lemma contig_loop_incl : forall v q l tk q1 l', contig_loop v q l = (tk, q1, l') -> forall p, In p q1 -> In p q.
+Proof.
+  intros v. induction q as [|p0 t IH]; intros l tk q1 l' H p Hin; cbn [contig_loop] in H.
+  - inversion H; subst. exact Hin.
+  - destruct (diffv v l (pseq p0) =? 0).
+    + destruct (contig_loop v t (sadd l (zlen (pbytes p0)))) as [[tk' q1'] l2] eqn:E. inversion H; subst.
+      right. eapply IH; eauto.
+    + inversion H; subst. exact Hin.
+Qed.
+
+Lemma covl_incl : forall S i a b x, (forall p, In p a -> In p b) -> covl S i a x -> covl S i b x.
+Proof. intros S i a b x H (p & o & Hin & Hp). exists p, o. split; [apply H; exact Hin|exact Hp]. Qed.
+
+(* the queue after sendToConnection of a container at offset a of length n, when the queue lay at or
+   beyond a + n: nothing held at or beyond the new delivery point e' is lost, nothing is invented, and
+   e' lies beyond everything contiguously held *)
+Lemma send_cover : forall S i c h used r0 sid nc a e',
+  zlen S < HIS -> cseq r0 = sq i a -> 0 <= a -> a + clen r0 <= zlen S ->
+  qok S i (a + clen r0) HIS (h_queue h) ->
+  sr_next (send fullv c h used r0 sid nc) = sq i e' -> a + clen r0 <= e' -> e' <= zlen S ->
+  let q1 := h_queue (sr_half (send fullv c h used r0 sid nc)) in
+  (forall x, covl S i (h_queue h) x -> e' <= x -> covl S i q1 x) /\
+  (forall x, covl S i q1 x -> covl S i (h_queue h) x) /\
+  (forall x, a + clen r0 <= x -> (forall y, a + clen r0 <= y <= x -> covl S i (h_queue h) y) -> x < e').
+Proof.
+  intros S i c h used r0 sid nc a e' HS Hcq Ha HaS Hq Hnx He1 He2 q1. subst q1.
+  rewrite send_queue. rewrite Hcq, sadd_sq, add_contiguous_sq_full.
+  assert (Hnx' : snd (contig_loop fullv (h_queue h) (sq i (a + clen r0))) = sq i e').
+  { rewrite <- Hnx. unfold send. rewrite Hcq, sadd_sq, add_contiguous_sq_full.
+    destruct (add_pending (h_saved h) (sq i a)) as [[[pre sl] sv1] reld].
+    destruct (contig_loop fullv (h_queue h) (sq i (a + clen r0))) as [[tk q1] nx].
+    match goal with |- context [if ?b then (length ?l, 0) else ?f] => destruct (if b then (length l, 0) else f) as [ndx kskip] end.
+    destruct (keep_conv fullv (skipn ndx (map CPage pre ++ r0 :: map CPage tk)) kskip) as [[sv2 alloc] pk].
+    reflexivity. }
+  destruct (contig_loop fullv (h_queue h) (sq i (a + clen r0))) as [[tk q1] nx] eqn:Ecl. cbn [snd fst] in *. subst nx.
+  pose proof (clen_nonneg r0).
+  destruct (contig_loop_cover S i (h_queue h) (a + clen r0) (a + clen r0) HIS HS Hq ltac:(lia) ltac:(lia) HIS_HI HS HaS
+              e' tk q1 Ecl He1 He2) as (C1 & C2).
+  split; [exact C1|]. split; [|exact C2].
+  intros x Hx. eapply covl_incl; [|exact Hx]. eapply contig_loop_incl; eauto.
+Qed.
+
+(* ---------------------------------------------------------------- nothing is invented in the queue *)
+Lemma co_loop_sound : forall S i w hi s e,
+  zlen S < HIS -> 0 <= w -> 0 <= s -> s <= e -> e <= hi -> hi <= HI 0 -> e <= zlen S ->
+  forall left right bytes rel tags m,
+  w <= m -> rok S i w m left -> qok S i m hi right ->
+  (bytes = [] \/ (bytes = sub S s (e - s) /\ e <= m)) ->
+  let r := co_loop fixedv (sq i s) (sq i e) left right bytes rel tags in
+  forall x, covl S i (co_left r) x \/ covl S i (co_right r) x -> covl S i left x \/ covl S i right x.
+Proof.
+  intros S i w hi s e HS Hw0 Hs0 Hse He Hhi HeS.
+  induction left as [|cur rest IH]; intros right bytes rel tags m Hwm Hl Hr Hb r.
+  - subst r. cbn [co_loop co_left co_right]. intros x Hx; exact Hx.
+  - cbn [rok] in Hl. destruct Hl as (cs & Hcs & Hce & Hcur & Hrest).
+    pose proof (qok_bounds _ _ _ _ _ Hr) as Hmhi.
+    assert (Hcs' : 0 <= cs) by lia.
+    assert (Hce' : cs + plen cur <= 0 + (HALFW - 1)) by (unfold HI in *; lia).
+    assert (He' : e <= 0 + (HALFW - 1)) by (unfold HI in *; lia).
+    assert (Hbz : zlen bytes = e - s \/ bytes = []).
+    { destruct Hb as [Hb|[Hb _]]; [right; assumption|left]. subst bytes. apply zlen_sub; lia. }
+    assert (Hbs : bytes = sub S s (e - s) \/ bytes = []) by (destruct Hb as [Hb|[Hb _]]; auto).
+    assert (Hex := co_cases_exhaustive S i s e cs cur Hcur).
+    pose proof Hcur as Hcur'. destruct Hcur' as (Hc0 & Hcl & HcS & Hcq & Hcb).
+    assert (Hone : forall x, covl S i [cur] x <-> cs <= x < cs + plen cur) by (intros; apply covl_one; assumption).
+    destruct Hex as [C5|[C1|[C3|[C2|[C4|[C6|C0]]]]]].
+    + subst r. rewrite (co_case5 S i 0 s e cs cur) by (try assumption; lia).
+      intros x Hx. apply (IH (cur :: right) bytes rel (5 :: tags) cs) in Hx; try assumption; try lia.
+      * rewrite (covl_cons S i cur rest). rewrite (covl_cons S i cur right) in Hx. tauto.
+      * cbn [qok]. exists cs. split; [lia|]. split; [lia|]. split; [assumption|]. eapply qok_weaken; eauto; lia.
+      * destruct Hb as [Hb|[Hb Hm]]; [left; assumption|right; split; [assumption|lia]].
+    + subst r. rewrite (co_case1 S i 0 s e cs cur) by (try assumption; lia).
+      cbn [co_left co_right]. intros x Hx; exact Hx.
+    + subst r. rewrite (co_case3 S i 0 s e cs cur) by (try assumption; lia).
+      intros x Hx. apply (IH right bytes (rel + 1) (3 :: tags) m) in Hx; try assumption; try lia.
+      * rewrite (covl_cons S i cur rest). tauto.
+      * eapply rok_weaken; eauto; lia.
+    + subst r. rewrite (co_case2 S i 0 s e cs cur) by (try assumption; lia).
+      cbn [co_left co_right]. intros x Hx. rewrite covl_cons in Hx. rewrite (covl_cons S i cur rest).
+      destruct Hx as [[Hx|Hx]|Hx]; [|tauto|tauto].
+      assert (Hp2 : pg S i cs (set_bytes cur (ztake (s - cs) (pbytes cur)))) by (apply case2_page; try assumption; lia).
+      apply (covl_one S i _ cs x HS Hp2) in Hx.
+      unfold plen, set_bytes in Hx. cbn [pbytes] in Hx. rewrite zlen_ztake in Hx by (unfold plen in *; lia).
+      left. left. apply Hone. lia.
+    + subst r. rewrite (co_case4 S i 0 s e cs cur) by (try assumption; lia).
+      assert (H4 := case4_page S i e cs cur).
+      destruct H4 as (Hp4 & Hl4); try assumption; try lia.
+      intros x Hx.
+      apply (IH (mkPage (zskip (e - cs) (pbytes cur)) (sq i e) (pseen cur) (pend cur) :: right) bytes rel (4 :: tags) e) in Hx;
+        try assumption; try lia.
+      * rewrite (covl_cons S i cur rest). rewrite covl_cons in Hx.
+        destruct Hx as [Hx|[Hx|Hx]]; [tauto| |tauto].
+        apply (covl_one S i _ e x HS Hp4) in Hx. rewrite Hl4 in Hx. left. left. apply Hone. lia.
+      * eapply rok_weaken; eauto; lia.
+      * cbn [qok]. exists e. rewrite Hl4. split; [lia|]. split; [lia|]. split; [assumption|]. eapply qok_weaken; eauto; lia.
+      * destruct Hb as [Hb|[Hb Hm]]; [left; assumption|right; split; [assumption|lia]].
+    + subst r. rewrite (co_case6 S i 0 s e cs cur) by (try assumption; lia).
+      rewrite (case6_same S i s e cs cur) by (try assumption; lia).
+      rewrite set_bytes_same.
+      intros x Hx. apply (IH (cur :: right) [] rel (6 :: tags) cs) in Hx; try assumption; try lia.
+      * rewrite (covl_cons S i cur rest). rewrite (covl_cons S i cur right) in Hx. tauto.
+      * cbn [qok]. exists cs. split; [lia|]. split; [lia|]. split; [assumption|]. eapply qok_weaken; eauto; lia.
+      * left; reflexivity.
+    + subst r. rewrite (co_case0 S i 0 s e cs cur) by (try assumption; lia).
+      intros x Hx. apply (IH (cur :: right) bytes rel tags cs) in Hx; try assumption; try lia.
+      * rewrite (covl_cons S i cur rest). rewrite (covl_cons S i cur right) in Hx. tauto.
+      * cbn [qok]. exists cs. split; [lia|]. split; [lia|]. split; [assumption|]. eapply qok_weaken; eauto; lia.
+      * destruct Hb as [Hb|[Hb Hm]]; [left; assumption|right; split; [assumption|lia]].
+Qed.
+
+Lemma sok_cov_inv : forall S i l a e x, zlen S < HIS -> sok S i a e l -> 0 <= a -> covl S i l x -> a <= x < e.
+Proof.
+  intros S i. induction l as [|p t IH]; intros a e x HS H Ha Hx; cbn [sok] in H.
+  - destruct (covl_nil S i x Hx).
+  - destruct H as ((H1 & H2 & H3 & H4) & H). pose proof (sok_range _ _ _ _ _ H). pose proof (plen_nonneg p).
+    rewrite covl_cons in Hx. destruct Hx as [Hx|Hx].
+    + destruct Hx as (p' & o' & [Hin|[]] & Hp' & Hx). subst p'.
+      assert (o' = a).
+      { destruct Hp' as (G1 & G2 & G3 & G4 & _). apply (sq_inj_window i o' a); [unfold HIS, HALFW in *; lia|congruence]. }
+      subst o'. lia.
+    + pose proof (IH _ _ _ HS H ltac:(lia) Hx). lia.
+Qed.
+
+(* checkOverlap, both directions, and the swallowed case *)
+Lemma check_overlap_sound : forall S i w q s n ts fl doq,
+  zlen S < HIS -> qok S i w HIS q -> 0 <= w -> 0 <= s -> 0 <= n -> s + n <= zlen S ->
+  let r := check_overlap fullv q (sub S s n) (sq i s) ts fl doq in
+  (forall x, covl S i (c2_queue r) x -> covl S i q x \/ (doq = true /\ s <= x < s + n)) /\
+  (c2_bytes r = [] -> forall x, s <= x < s + n -> covl S i (c2_queue r) x).
+Proof.
+  intros S i w q s n ts fl doq HS Hq Hw Hs Hn HnS r. subst r. rewrite check_overlap_full. unfold check_overlap.
+  rewrite zlen_sub by lia. rewrite sadd_sq.
+  pose proof (qok_bounds _ _ _ _ _ Hq) as Hb.
+  assert (Hgen := co_loop_gen S i 0 w HIS s (s + n) ltac:(lia) ltac:(lia) ltac:(lia) ltac:(unfold HIS in *; lia)
+                    HIS_HI Hs HnS (rev q) [] (sub S s n) 0 [] HIS).
+  assert (Hsnd := co_loop_sound S i w HIS s (s + n) HS Hw Hs ltac:(lia) ltac:(unfold HIS in *; lia) HIS_HI HnS
+                    (rev q) [] (sub S s n) 0 [] HIS).
+  assert (Hcov := co_loop_cover S i w HIS s (s + n) HS Hw Hs ltac:(lia) ltac:(unfold HIS in *; lia) HIS_HI HnS
+                    (rev q) [] (sub S s n) 0 [] HIS).
+  replace (s + n - s) with n in Hgen, Hsnd, Hcov by lia.
+  destruct Hgen as (Hpk & m1 & m2 & _ & _ & _ & _ & Hby).
+  { lia. } { apply unzip_ok; assumption. } { cbn [qok]; lia. } { right; split; [reflexivity|unfold HIS in *; lia]. }
+  specialize (Hsnd ltac:(lia) ltac:(apply unzip_ok; assumption) ltac:(cbn [qok]; lia)
+                   ltac:(right; split; [reflexivity|unfold HIS in *; lia])).
+  destruct Hcov as (_ & C2).
+  { lia. } { apply unzip_ok; assumption. } { cbn [qok]; lia. } { right; split; [reflexivity|unfold HIS in *; lia]. }
+  rewrite Hpk.
+  set (r := co_loop fixedv (sq i s) (sq i (s + n)) (rev q) [] (sub S s n) 0 []) in *.
+  cbv zeta in Hsnd.
+  assert (Hold : forall y, covl S i (rev (co_left r)) y \/ covl S i (co_right r) y -> covl S i q y).
+  { intros y Hy. destruct (Hsnd y) as [H|H].
+    - destruct Hy as [Hy|Hy]; [left; apply covl_rev; exact Hy|right; exact Hy].
+    - apply covl_rev. exact H.
+    - destruct (covl_nil S i y H). }
+  destruct ((0 <? zlen (co_bytes r)) && doq) eqn:E; cbn [c2_queue c2_bytes].
+  - assert (Hbytes : co_bytes r = sub S s n).
+    { destruct Hby as [Hby|(Hby & _)]; [|exact Hby]. rewrite Hby in E. cbn in E. discriminate. }
+    split.
+    + intros x Hx. rewrite Hbytes in Hx. rewrite !covl_app in Hx.
+      destruct Hx as [Hx|[Hx|Hx]]; [left; apply Hold; tauto| |left; apply Hold; tauto].
+      right. split; [destruct doq; [reflexivity|rewrite andb_false_r in E; discriminate]|].
+      apply (sok_cov_inv S i _ s (s + n) x HS) in Hx; [exact Hx| |lia].
+      apply to_pages_sok; lia.
+    + intros Hnil. rewrite Hnil in E. cbn in E. discriminate.
+  - split.
+    + intros x Hx. rewrite covl_app in Hx. left. apply Hold. exact Hx.
+    + intros Hnil x Hx. rewrite covl_app. right.
+      destruct (Z.eq_dec n 0); [lia|].
+      apply C2; [|exact Hnil|exact Hx].
+      intros Hn0. assert (Hz : zlen (sub S s n) = n) by (apply zlen_sub; lia). rewrite Hn0 in Hz. cbn in Hz. lia.
+Qed.
+
+Lemma contig_loop_incl_tk : forall v q l tk q1 l', contig_loop v q l = (tk, q1, l') -> forall p, In p tk -> In p q.
+Proof.
+  intros v. induction q as [|p0 t IH]; intros l tk q1 l' H p Hin; cbn [contig_loop] in H.
+  - inversion H; subst. destruct Hin.
+  - destruct (diffv v l (pseq p0) =? 0).
+    + destruct (contig_loop v t (sadd l (zlen (pbytes p0)))) as [[tk' q1'] l2] eqn:E. inversion H; subst.
+      destruct Hin as [Hin|Hin]; [left; exact Hin|right; eapply IH; eauto].
+    + inversion H; subst. destruct Hin.
+Qed.
+
+(* when the run taken by addContiguous is not empty its last byte was held *)
+Lemma send_last_held : forall S i c h used r0 sid nc a e',
+  zlen S < HIS -> cseq r0 = sq i a -> 0 <= a -> a + clen r0 <= zlen S ->
+  qok S i (a + clen r0) HIS (h_queue h) ->
+  sr_next (send fullv c h used r0 sid nc) = sq i e' -> a + clen r0 < e' -> e' <= zlen S ->
+  covl S i (h_queue h) (e' - 1).
+Proof.
+  intros S i c h used r0 sid nc a e' HS Hcq Ha HaS Hq Hnx He1 He2.
+  assert (Hnx' : snd (contig_loop fullv (h_queue h) (sq i (a + clen r0))) = sq i e').
+  { rewrite <- Hnx. unfold send. rewrite Hcq, sadd_sq, add_contiguous_sq_full.
+    destruct (add_pending (h_saved h) (sq i a)) as [[[pre sl] sv1] reld].
+    destruct (contig_loop fullv (h_queue h) (sq i (a + clen r0))) as [[tk q1] nx].
+    match goal with |- context [if ?b then (length ?l, 0) else ?f] => destruct (if b then (length l, 0) else f) as [ndx kskip] end.
+    destruct (keep_conv fullv (skipn ndx (map CPage pre ++ r0 :: map CPage tk)) kskip) as [[sv2 alloc] pk].
+    reflexivity. }
+  pose proof (clen_nonneg r0).
+  destruct (contig_loop_sok S i HIS (h_queue h) (a + clen r0) (a + clen r0) Hq) as (e2 & tk & q1 & Heq & H1 & H2 & Hs & _);
+    try lia; try apply HIS_HI.
+  rewrite Heq in Hnx'. cbn [snd] in Hnx'.
+  assert (e2 = e') by (apply (sq_inj_window i e2 e'); [unfold HIS, HALFW in *; lia|exact Hnx']). subst e2.
+  eapply covl_incl; [eapply contig_loop_incl_tk; exact Heq|].
+  eapply sok_cov; [exact Hs|lia].
+Qed.
+
+(* ---------------------------------------------------------------- received ranges *)
+Definition inR (R : list (Z * Z)) (x : Z) : Prop := exists r, In r R /\ fst r <= x < fst r + snd r.
+Definition Rpos (R : list (Z * Z)) : Prop := Forall (fun r => 0 < snd r) R.
+
+Lemma inR_cons : forall r R x, inR (r :: R) x <-> (fst r <= x < fst r + snd r) \/ inR R x.
+Proof.
+  intros. unfold inR. split.
+  - intros (r' & [Hin|Hin] & H); [subst; left; exact H|right; eauto].
+  - intros [H|(r' & Hin & H)]; [exists r; split; [left; reflexivity|exact H]|exists r'; split; [right; exact Hin|exact H]].
+Qed.
+
+Lemma hits_false : forall R a b, a < b -> Rpos R -> (forall x, a <= x < b -> ~ inR R x) -> hits R a b = false.
+Proof.
+  induction R as [|r t IH]; intros a b Hab Hp Hn; [reflexivity|].
+  inversion Hp as [|? ? Hr Ht]; subst. unfold hits in *. cbn [existsb].
+  rewrite IH; [|exact Hab|exact Ht|intros x Hx Hin; apply (Hn x Hx); apply inR_cons; right; exact Hin].
+  rewrite orb_false_r.
+  destruct ((fst r <? b) && (a <? fst r + snd r)) eqn:E; [|reflexivity]. exfalso.
+  apply (Hn (Z.max a (fst r))); [lia|]. apply inR_cons. left. lia.
+Qed.
+
+Lemma max_recv_ge_acc : forall (R : list (Z * Z)) m, m <= fold_left (fun m r => Z.max m (fst r + snd r)) R m.
+Proof. induction R as [|r t IH]; intros m; cbn [fold_left]; [lia|]. specialize (IH (Z.max m (fst r + snd r))). lia. Qed.
+
+Lemma max_recv_mono : forall (R : list (Z * Z)) m m', m <= m' ->
+  fold_left (fun m r => Z.max m (fst r + snd r)) R m <= fold_left (fun m r => Z.max m (fst r + snd r)) R m'.
+Proof. induction R as [|r t IH]; intros m m' H; cbn [fold_left]; [lia|]. apply IH. lia. Qed.
+
+Lemma inR_max : forall R x, inR R x -> x < max_recv R.
+Proof.
+  unfold max_recv. induction R as [|r t IH]; intros x (r' & Hin & H); [destruct Hin|].
+  cbn [fold_left]. destruct Hin as [Hin|Hin].
+  - subst r'. pose proof (max_recv_ge_acc t (Z.max 0 (fst r + snd r))). lia.
+  - assert (Hx : inR t x) by (exists r'; auto). specialize (IH x Hx).
+    pose proof (max_recv_mono t 0 (Z.max 0 (fst r + snd r)) ltac:(lia)). lia.
+Qed.
+
+Lemma max_recv_cons : forall r R, max_recv R <= max_recv (r :: R) /\ fst r + snd r <= max_recv (r :: R).
+Proof.
+  intros. unfold max_recv. cbn [fold_left]. split.
+  - apply max_recv_mono. lia.
+  - pose proof (max_recv_ge_acc R (Z.max 0 (fst r + snd r))). lia.
+Qed.
+
+(* min_recv: the least start, when some range starts at a and none starts before *)
+Lemma min_recv_acc : forall (R : list (Z * Z)) m a, (forall r, In r R -> a <= fst r) -> a <= m ->
+  (m = a \/ exists r, In r R /\ fst r = a) -> fold_left (fun m r => Z.min m (fst r)) R m = a.
+Proof.
+  induction R as [|r t IH]; intros m a Hall Hm Hex; cbn [fold_left].
+  - destruct Hex as [H|(r & [] & _)]. exact H.
+  - apply IH.
+    + intros r' Hin. apply Hall. right. exact Hin.
+    + specialize (Hall r (or_introl eq_refl)). lia.
+    + destruct Hex as [H|(r' & [Hin|Hin] & H)].
+      * left. specialize (Hall r (or_introl eq_refl)). lia.
+      * subst r'. left. lia.
+      * right. exists r'. auto.
+Qed.
+
+Lemma min_recv_is : forall R a, (forall r, In r R -> a <= fst r) -> (exists r, In r R /\ fst r = a) -> min_recv R = a.
+Proof.
+  intros R a Hall (r & Hin & Hr). unfold min_recv. destruct R as [|(o, n) t]; [destruct Hin|].
+  apply min_recv_acc.
+  - intros r' Hin'. apply Hall. right. exact Hin'.
+  - apply (Hall (o, n)). left. reflexivity.
+  - destruct Hin as [Hin|Hin]; [left; subst r; exact Hr|right; exists r; auto].
+Qed.
+
+(* ---------------------------------------------------------------- what flushing leaves alone; termination *)
+Lemma send_seen : forall v c h used r0 sid nc, h_seen (sr_half (send v c h used r0 sid nc)) = h_seen h.
+Proof.
+  intros. unfold send.
+  destruct (add_pending (h_saved h) (cseq r0)) as [[[pre sl] sv1] reld].
+  destruct (add_contiguous v (h_queue h) (sadd (cseq r0) (clen r0))) as [[tk q1] nx].
+  match goal with |- context [if ?b then (length ?l, 0) else ?f] => destruct (if b then (length l, 0) else f) as [ndx kskip] end.
+  destruct (keep_conv v (skipn ndx (map CPage pre ++ r0 :: map CPage tk)) kskip) as [[sv2 alloc] pk].
+  reflexivity.
+Qed.
+
+Lemma contig_loop_len : forall v q l, (length (snd (fst (contig_loop v q l))) <= length q)%nat.
+Proof.
+  intros v. induction q as [|p t IH]; intros l; cbn [contig_loop]; [cbn; lia|].
+  destruct (diffv v l (pseq p) =? 0); [|cbn; lia].
+  specialize (IH (sadd l (zlen (pbytes p)))).
+  destruct (contig_loop v t (sadd l (zlen (pbytes p)))) as [[tk q1] l2]. cbn [fst snd length] in *. lia.
+Qed.
+
+Lemma add_contiguous_len : forall v q l, (length (snd (fst (add_contiguous v q l))) <= length q)%nat.
+Proof. intros. destruct q as [|p t]; [cbn; lia|]. unfold add_contiguous. apply contig_loop_len. Qed.
+
+Lemma close_c2s_facts : forall v s,
+  h_closed (s_half (fst (close_c2s v s))) = true /\ s_rev_closed (fst (close_c2s v s)) = s_rev_closed s /\
+  s_rev_seen (fst (close_c2s v s)) = s_rev_seen s /\ h_seen (s_half (fst (close_c2s v s))) = h_seen (s_half s) /\
+  h_queue (s_half (fst (close_c2s v s))) = [].
+Proof. intros. unfold close_c2s. destruct (s_rev_closed s); cbn; auto. Qed.
+
+(* sendToConnection + close, on a state s with the half h: the reverse half and the timestamps are
+   left alone, the queue does not grow *)
+Lemma send_st_facts : forall v s h used r0,
+  let s1 := fst (fst (fst (send_st v s h used r0))) in
+  s_rev_closed s1 = s_rev_closed s /\ s_rev_seen s1 = s_rev_seen s /\ h_seen (s_half s1) = h_seen h /\
+  (length (h_queue (s_half s1)) <= length (h_queue h))%nat.
+Proof.
+  intros v s h used r0. unfold send_st.
+  pose proof (send_seen v (s_cfg s) h used r0 (s_sid s) (s_ncalls s)) as Hseen.
+  pose proof (send_queue v (s_cfg s) h used r0 (s_sid s) (s_ncalls s)) as Hq.
+  pose proof (add_contiguous_len v (h_queue h) (sadd (cseq r0) (clen r0))) as Hlen. rewrite <- Hq in Hlen.
+  set (r := send v (s_cfg s) h used r0 (s_sid s) (s_ncalls s)) in *.
+  destruct (sr_panic r); [cbn; auto|].
+  destruct (sr_end r).
+  - set (s0 := mkSt (s_cfg s) (s_exists s) (sr_half r) (s_rev_closed s) (s_rev_seen s) (sr_used r) (s_sid s) (Datatypes.S (s_ncalls s))).
+    pose proof (close_c2s_facts v s0) as (_ & F2 & F3 & F4 & F5).
+    destruct (close_c2s v s0) as [s2 ev2]. cbn [fst] in *. subst s0. cbn [s_rev_closed s_rev_seen s_half] in *.
+    rewrite F5. cbn [length]. split; [exact F2|]. split; [exact F3|]. split; [congruence|lia].
+  - cbn. auto.
+Qed.
+
+Lemma skip_flush_facts : forall v s,
+  let s1 := fst (fst (skip_flush v s)) in
+  s_rev_closed s1 = s_rev_closed s /\ s_rev_seen s1 = s_rev_seen s /\ h_seen (s_half s1) = h_seen (s_half s) /\
+  (h_queue (s_half s) = [] -> h_closed (s_half s1) = true) /\
+  (h_queue (s_half s) <> [] -> (length (h_queue (s_half s1)) < length (h_queue (s_half s)))%nat).
+Proof.
+  intros v s. unfold skip_flush. destruct (h_queue (s_half s)) as [|p q'] eqn:Eq.
+  - pose proof (close_c2s_facts v s) as (F1 & F2 & F3 & F4 & _).
+    destruct (close_c2s v s) as [s2 ev2]. cbn [fst] in *. repeat split; auto. intros H; contradiction.
+  - set (h1 := mkHalf (h_pages (s_half s)) (h_saved (s_half s)) q' (h_next (s_half s)) (h_seen (s_half s)) (h_closed (s_half s))).
+    pose proof (send_st_facts v s h1 (s_used s) (CPage p)) as (F1 & F2 & F3 & F4).
+    destruct (send_st v s h1 (s_used s) (CPage p)) as [[[s1 nx] ev] pk]. cbn [fst] in *.
+    subst h1. cbn [h_seen h_queue] in *.
+    destruct (nx =? INVALID); cbn [fst set_half set_next s_rev_closed s_rev_seen s_half h_seen h_queue];
+      (split; [exact F1|]; split; [exact F2|]; split; [exact F3|]; split; [intros H; discriminate|]; intros _; cbn [length]; lia).
+Qed.
+
+Lemma fa_loop_closed : forall v fuel s, h_closed (s_half s) = true -> fa_loop fuel v s = (s, [], false).
+Proof. intros v [|f] s H; cbn [fa_loop]; [reflexivity|]. rewrite H. reflexivity. Qed.
+
+(* FlushAll's loop ends with the data half closed when its fuel exceeds the queue length *)
+Lemma fa_loop_facts : forall v fuel s,
+  let r := fa_loop fuel v s in
+  s_rev_closed (fst (fst r)) = s_rev_closed s /\
+  ((length (h_queue (s_half s)) < fuel)%nat -> snd r = false -> h_closed (s_half (fst (fst r))) = true).
+Proof.
+  intros v. induction fuel as [|f IH]; intros s; cbn [fa_loop].
+  - cbn. split; [reflexivity|lia].
+  - destruct (h_closed (s_half s)) eqn:Hcl; [cbn; auto|].
+    pose proof (skip_flush_facts v s) as (F1 & _ & _ & F4 & F5).
+    destruct (skip_flush v s) as [[s1 ev1] pk1]. cbn [fst] in *.
+    destruct pk1; [cbn; split; [exact F1|intros _ Hc; discriminate]|].
+    destruct (h_queue (s_half s)) as [|p q'] eqn:Eq.
+    + specialize (F4 eq_refl). rewrite (fa_loop_closed v f s1 F4). cbn [fst snd]. split; [exact F1|]. intros _ _. exact F4.
+    + specialize (IH s1). destruct (fa_loop f v s1) as [[s2 ev2] pk2]. cbn [fst snd] in *.
+      destruct IH as (I1 & I2). split; [congruence|].
+      intros Hlen Hpk. apply I2; [|exact Hpk]. specialize (F5 ltac:(discriminate)). cbn [length] in *. lia.
+Qed.
+
+Lemma fc_loop_facts : forall v fuel s t,
+  let s1 := fst (fst (fc_loop fuel v s t)) in
+  s_rev_closed s1 = s_rev_closed s /\ s_rev_seen s1 = s_rev_seen s /\ h_seen (s_half s1) = h_seen (s_half s).
+Proof.
+  intros v. induction fuel as [|f IH]; intros s t; cbn [fc_loop]; [cbn; auto|].
+  destruct (h_queue (s_half s)) as [|p q']; [cbn; auto|].
+  destruct (pseen p <? t); [|cbn; auto].
+  pose proof (skip_flush_facts v s) as (F1 & F2 & F3 & _).
+  destruct (skip_flush v s) as [[s1 ev1] pk1]. cbn [fst] in *.
+  destruct pk1; [cbn; auto|].
+  destruct (h_closed (s_half s1)); [cbn; auto|].
+  specialize (IH s1 t). destruct (fc_loop f v s1 t) as [[s2 ev2] pk2]. cbn [fst] in *.
+  destruct IH as (I1 & I2 & I3). repeat split; congruence.
 Qed.
